@@ -1,2 +1,3 @@
 -- Root of the proof library: property theorems (Props/) and helper lemmas (Proofs/).
 import RepidProofs.Props.C19
+import RepidProofs.Props.C01
